@@ -25,7 +25,8 @@ def slot_profile(source):
     return Profile(vrl=[256, 8192], max_frames=2, max_channels=3, max_rows=5, max_width=2, meta_kinds=META,
                    max_meta=5, attr_routes=('kw', 'dict', 'later'), units=True, unit_enums=False,
                    number_pool=NUMBER_POOL, text_pool=TEXT_POOL, name_pool=NAME_POOL, max_origins=2,
-                   explicit_origin_refs=True, sources=(source,), byte_orders=('<',), noformat=1, nf_payload_max=12)
+                   explicit_origin_refs=True, sources=(source,), byte_orders=('<',), noformat=1, nf_payload_max=12,
+                   named_sets=True)
 
 
 @st.composite
